@@ -80,21 +80,21 @@ Proof.
   destruct i as [|i]; [inversion Hn; subst; exists y; split; [reflexivity|exact Hxy]|]. apply IH. exact Hn.
 Qed.
 
-Theorem traceback_marks_failing_line lex wrapf code lineno extra transparent guides W avail e :
+Theorem traceback_marks_failing_line lex wrapf found code lineno extra transparent guides W avail e :
   LexOk (f_lex fixed_facts) lex ->
   clean code = true -> 0 <= extra -> 1 <= lineno ->
   SyntaxFacts.tb_line_numbers = true -> SyntaxFacts.tb_range_is_lineno_pm_extra = true ->
   SyntaxFacts.tb_highlight_is_lineno = true -> 0 <= SyntaxFacts.tb_code_width ->
   SyntaxFacts.syntax_default_start_line = 1 -> 1 <= SyntaxFacts.syntax_default_tab_size ->
-  let o := tb_opts lineno extra false transparent guides in
+  let o := tb_opts_f found lineno extra false transparent guides in
   nth_error (source_lines o code) (Z.to_nat (lineno - 1)) = Some e -> blank e = false ->
   SyntaxFacts.tb_code_width + spec_gutter_width o code <= avail ->
-  exists out, render_frame lex fixed_facts wrapf code lineno extra false transparent guides W = Ok out /\
+  exists out, render_frame_f lex fixed_facts wrapf found code lineno extra false transparent guides W = Ok out /\
               failing_line_b code lineno avail guides out = true.
 Proof.
-  intros HLex Hc He Hl F1 F2 F3 F4 F5 F6 o Hnth Hnb Hav. unfold render_frame. fold o.
-  assert (Hhl : o_highlight o = [lineno]) by (unfold o, tb_opts; cbn [o_highlight]; rewrite F3; reflexivity).
-  assert (Hr : o_range o = Some (lineno - extra, lineno + extra)) by (unfold o, tb_opts; cbn [o_range]; rewrite F2; reflexivity).
+  intros HLex Hc He Hl F1 F2 F3 F4 F5 F6 o Hnth Hnb Hav. unfold render_frame_f. fold o.
+  assert (Hhl : o_highlight o = [lineno]) by (unfold o, tb_opts_f; cbn [o_highlight]; rewrite F3; reflexivity).
+  assert (Hr : o_range o = Some (lineno - extra, lineno + extra)) by (unfold o, tb_opts_f; cbn [o_range]; rewrite F2; reflexivity).
   assert (Hln : o_line_numbers o = true) by exact F1.
   assert (Hst : o_start_line o = 1) by exact F5.
   assert (Hre : range_end_nonneg o) by (unfold range_end_nonneg; rewrite Hr; lia).
